@@ -24,6 +24,23 @@ type Cluster struct {
 	errs     map[string]error
 }
 
+type ctxKey int
+
+// EndContextAfterReply is a context key: when the value under it is a
+// func(), the fault interceptor below the library's client interceptor calls
+// it as soon as the transport has delivered the server's reply, i.e. the
+// caller's context ends (a deadline fires, a sibling call cancels a shared
+// context) between the arrival of the reply and its processing.
+const EndContextAfterReply ctxKey = 1
+
+func faultInterceptor(ctx context.Context, method string, req, reply interface{}, cc *grpc.ClientConn, invoker grpc.UnaryInvoker, opts ...grpc.CallOption) error {
+	err := invoker(ctx, method, req, reply, cc, opts...)
+	if end, ok := ctx.Value(EndContextAfterReply).(func()); ok {
+		end()
+	}
+	return err
+}
+
 type echoServer struct{ c *Cluster }
 
 // Echo returns the error registered for the request text.
@@ -47,7 +64,7 @@ func NewCluster(seed uint64) (*Cluster, error) {
 		return grpc.Dial("sim", opts...)
 	}
 	var err error
-	if c.conn, err = dial(grpc.WithUnaryInterceptor(middleware.UnaryClientInterceptor)); err != nil {
+	if c.conn, err = dial(grpc.WithChainUnaryInterceptor(middleware.UnaryClientInterceptor, faultInterceptor)); err != nil {
 		return nil, err
 	}
 	if c.connRaw, err = dial(); err != nil {
